@@ -310,6 +310,12 @@ class Engine(ExprMixin, CallMixin):
             ck = f"{self.cur_key}.{n.name}"
             v.contract_key = ck
             s.env[n.name] = v
+            # a closure under contract may rely on facts about the variables it captures (its setup assumes them when its body is
+            # verified): they are obligations where the closure is created
+            cc = self.reg.fns.get(ck)
+            for k, req in enumerate(getattr(cc, 'closure_requires', None) or []):
+                ns = NS(s.env, self.entry_env, s, self.entry_state)
+                self.oblige(f"{self.cur_key}#closure:{n.name}.captured{k}", s, req(ns), kind='closure-pre')
             return [('fall', s, None)]
         return self.from_expr(self.make_closure(n, st, n.name), f)
 
